@@ -119,7 +119,13 @@ def scan_flags():
         f["max_size_over_variants"] = False
     try:
         g = strip_comments(open(os.path.join(REPO, "truc/src/generator/mod.rs")).read())
-        f["align_assertions"] = "align_of::<{}>()" in g
+        # an `align_of::<{..}>()` format string anywhere in the generator (mod.rs or a fragment)
+        gen_srcs = [g]
+        fdir = os.path.join(REPO, "truc/src/generator/fragment")
+        for fn in sorted(os.listdir(fdir)) if os.path.isdir(fdir) else []:
+            if fn.endswith(".rs"):
+                gen_srcs.append(strip_comments(open(os.path.join(fdir, fn)).read()))
+        f["align_assertions"] = any(re.search(r"align_of\s*::\s*<\s*\{[^}]*\}\s*>\s*\(\s*\)", x) for x in gen_srcs)
         srcs = [g, simple]
         for fn in ("fragment/record_impl.rs", "fragment/record.rs"):
             srcs.append(strip_comments(open(os.path.join(REPO, "truc/src/generator", fn)).read()))
